@@ -24,6 +24,8 @@ def run(ctx):
         "dictionary facts of PS35Dict.tla for Implicit VR (sequences use standard SQ tags; private tags are read as UN)",
     ]
     vlib.build_harness(["drv_dataset"])
+    if P.replay(ctx, "C02"):
+        return
     sweeps = ["vr", "struct"] + ([] if q else ["struct3"])
     jobs = P.ds_jobs(ctx, sweeps)
     P.generate_parallel(ctx, jobs)
